@@ -248,6 +248,14 @@ type world struct {
 	lastRoot common.Hash // root returned by the last operation, if it returned one
 	hasRoot  bool
 	rootOp   string
+	commits  []common.Hash // roots committed into the current state.Database, oldest first
+	asides   []aside       // states set aside by copy / fork with what they read back at that moment
+}
+
+type aside struct {
+	st   *state.StateDB
+	was  *dump
+	what string
 }
 
 func newWorld() *world {
@@ -282,6 +290,7 @@ const (
 	kCopy
 	kReopen
 	kReadAll
+	kFork
 )
 
 type op struct {
@@ -292,6 +301,9 @@ type op struct {
 
 func (w *world) setRoot(r common.Hash, name string) {
 	w.lastRoot, w.hasRoot, w.rootOp = r, true, name
+	if name == "Commit" {
+		w.commits = append(w.commits, r)
+	}
 }
 
 func mut(name string, f func(s *state.StateDB)) op {
@@ -392,6 +404,7 @@ func globalOps() map[string]op {
 				return fmt.Errorf("state.New(%x) after flush: %v", r[:4], err)
 			}
 			w.st.Prepare(thash, bhash, 0)
+			w.commits = nil // older roots were not flushed and are not expected in the fresh database
 			w.setRoot(r, "Commit")
 			w.live = w.live[:0]
 			return nil
@@ -399,11 +412,22 @@ func globalOps() map[string]op {
 	}
 	// in the erased twin a reopen is a plain commit
 	add(op{"copy", kCopy, func(w *world) error {
+		w.asides = append(w.asides, aside{w.st, takeDump(w.st), "original left behind by copy"})
 		w.st = w.st.Copy()
 		w.st.Prepare(thash, bhash, 0) // Copy does not carry the per-transaction context; callers Prepare per tx
 		w.live = w.live[:0]           // "Snapshots of the copied state cannot be applied to the copy"
 		return nil
 	}})
+	// take a copy, set it aside, continue on the original: the copy must keep reading back what it read
+	// when it was taken, whatever happens to the original (and taking it must be transparent)
+	add(op{"fork", kFork, func(w *world) error {
+		c := w.st.Copy()
+		w.asides = append(w.asides, aside{c, takeDump(c), "copy set aside by fork"})
+		return nil
+	}})
+	add(mut("logB", func(s *state.StateDB) {
+		s.AddLog(&types.Log{Address: addrs[1], Topics: []common.Hash{hv(8), hv(9)}, Data: []byte{3}})
+	}))
 	add(op{"readall", kReadAll, func(w *world) error { takeDump(w.st); return nil }})
 	return m
 }
@@ -419,6 +443,7 @@ var familyDefs = []family{
 	{"F2a-root", []int{0, 1, 2}, []string{"add1(X)", "setbal0(X)", "nonce1(X)", "nonce0(X)", "codeA(X)", "st(X,0,1)", "st(X,0,0)", "st(X,1,2)", "fin(true)", "fin(false)", "commit(false)"}},
 	{"F2b-persist", []int{0, 2}, []string{"add1(X)", "setbal0(X)", "codeB(X)", "st(X,0,2)", "st(X,0,0)", "fin(true)", "commit(true)", "commit(false)", "copy", "reopen-disk(true)", "reopen-cached(false)", "readall"}},
 	{"F3-destruct", []int{0, 1, 2}, []string{"suicide(X)", "create(X)", "add0(X)", "add1(X)", "sub1(X)", "st(X,0,1)", "snap", "revN", "fin(true)", "fin(false)"}},
+	{"F5-copy", []int{0}, []string{"add1(X)", "logrefund", "logB", "snap", "revN", "fork", "copy"}},
 	{"F4-two", []int{0}, []string{"add1(A1)", "add1(F)", "st(A1,1,2)", "st(F,0,2)", "suicide(A1)", "suicide(F)", "snap", "revN", "fin(true)", "reopen-disk(true)"}},
 }
 
@@ -491,6 +516,8 @@ func erase(seq []op) (twin []op, what string) {
 			return append(append([]op{}, seq[:j]...), seq[j+1:]...), "erase-copy"
 		case kReadAll:
 			return append(append([]op{}, seq[:j]...), seq[j+1:]...), "erase-readall"
+		case kFork:
+			return append(append([]op{}, seq[:j]...), seq[j+1:]...), "erase-fork"
 		case kReopen:
 			twin = append([]op{}, seq...)
 			de := strings.Contains(o.name, "(true)")
@@ -541,11 +568,30 @@ func execute(seq []op) (out *outcome, f *fail) {
 	step = "closing"
 	out.closRoot = w.st.IntermediateRoot(true)
 	out.closing = takeDump(w.st)
+	// every root committed into this state.Database still names its own content, whatever was done to
+	// the committing StateDB object afterwards (the database serves recent roots from cached tries)
+	step = "old-roots"
+	for i, r := range w.commits {
+		old, err := state.New(r, w.sdb)
+		if err != nil {
+			return nil, &fail{"old-root", "open", fmt.Sprintf("root %x committed by commit #%d of the sequence cannot be opened any more: %v", r[:4], i, err)}
+		}
+		d := takeDump(old)
+		if got := refStateRoot(d); got != r {
+			return nil, &fail{"old-root", "content", fmt.Sprintf("state opened at root %x (commit #%d of the sequence) reads back content whose specification root is %x: %+v", r[:4], i, got[:4], d.Accts)}
+		}
+	}
+	step = "asides"
+	for i, a := range w.asides {
+		if field, msg := a.was.diff(takeDump(a.st), true); field != "" {
+			return nil, &fail{"aside-changed", field, fmt.Sprintf("%s (#%d) no longer reads back what it read when it was set aside: %s", a.what, i, msg)}
+		}
+	}
 	return out, nil
 }
 
 func kindName(k opKind) string {
-	return []string{"mutator", "snapshot", "revert", "revert", "finalise", "commit", "copy", "reopen", "readall"}[k]
+	return []string{"mutator", "snapshot", "revert", "revert", "finalise", "commit", "copy", "reopen", "readall", "fork"}[k]
 }
 
 // rawSummary renders RawDump in the vocabulary of the observable dump.
@@ -791,6 +837,9 @@ func TestCheck(t *testing.T) {
 			if run.Quick() && strings.HasPrefix(fam.name, "F2") && os.Getenv("VERIF_C09_DEPTH") == "" {
 				fdepth = depth - 1 // quick: the two families without snapshots (no ill-formed sequences to skip) one level shallower
 			}
+			if fam.name == "F5-copy" && os.Getenv("VERIF_C09_DEPTH") == "" {
+				fdepth = depth + 1 // small alphabet; the aliasing patterns between a copy and its original need 6 steps
+			}
 			run.Set("depth_"+fam.name, fdepth)
 			for l := 0; l <= fdepth; l++ {
 				n := 1
@@ -865,7 +914,7 @@ func TestCheck(t *testing.T) {
 
 // classKey: the multiset of operation kinds plus the erased construct.
 func classKey(seq []op, what string) string {
-	var c [9]int
+	var c [10]int
 	for _, o := range seq {
 		c[o.kind]++
 	}
